@@ -393,13 +393,40 @@ package router
 //@ spec func lifeOf(rcode dnsmsg.RCode, hasRr bool, minTtl int, maxTtl int) int = ((lifeBase(rcode, hasRr, minTtl) <= 0 ? sec() : lifeBase(rcode, hasRr, minTtl)) > maxTtl ? maxTtl : (lifeBase(rcode, hasRr, minTtl) <= 0 ? sec() : lifeBase(rcode, hasRr, minTtl)))
 
 //@ func (c *cacheCtl) Store(q *dnsmsg.Question, clientAddr netip.Addr, resp *dnsmsg.Msg)
-//@   props C08
+//@   props C08 C07 C20
 //@   requires c != nil && q != nil && (resp == nil || (wfMsg(resp) && smallMsg(resp))) && c.logger != nil && (c.ipMarker == nil || markerOK(c.ipMarker)) && (c.redis == nil || redisOK(c.redis))
 //@   modifies nothing
 //@   callsite Store: [C08:never-truncated] resp != nil && !resp.Truncated
 //@   callsite Store: [C08:negative-flag] arg5 == (resp.RCode != 0)
 //@   callsite Store: [C08:lifetime] tns(arg3) - tns(arg2) == lifeOf(resp.RCode, hasRr, int(u) * sec(), int(c.maximumTtl))
 //@   callsite AsyncStore: [C08:never-truncated-redis] resp != nil && !resp.Truncated && arg5 == (resp.RCode != 0)
+// what is stored and where: the encoding of exactly this response, under the key of this question and the group of
+// this client, in both tiers, with the same two time stamps (now, now + lifetime); the two scratch buffers are
+// released once each after the stores took their own copies
+//@   ghost gMark string = ""
+//@   ghost gKey pool.Buffer = nil
+//@   ghost gVal pool.Buffer = nil
+//@   ghost gNow time.Time = nil
+//@   ghost gExp time.Time = nil
+//@   ghost nRelK int = 0
+//@   ghost nRelV int = 0
+//@   aftercall ipMark: gMark = ret0
+//@   aftercall cacheKey: gKey = ret0
+//@   aftercall packCacheMsg: gVal = ret0
+//@   aftercall Now: gNow = ret0
+//@   aftercall Add: gExp = ret0
+//@   oncall ReleaseBuf: nRelK = nRelK + (arg0 == gKey && gKey != nil ? 1 : 0)
+//@   oncall ReleaseBuf: nRelV = nRelV + (arg0 == gVal && gVal != nil ? 1 : 0)
+//@   callsite packCacheMsg: [C07:the-response-that-was-received] arg0 == resp
+//@   callsite ipMark: [C07:group-of-the-client-that-asked] arg0 == c && arg1 == clientAddr
+//@   callsite cacheKey: [C07:key-of-this-question-and-group] arg0 == q && arg1 == gMark
+//@   callsite Add: [C08:expiry-counted-from-the-store-time] arg0 == gNow
+//@   callsite Store: [C07:stored-under-that-key-as-that-encoding] arg0 == c.memory && arg1 == gKey && arg4 == gVal && nRelK == 0 && nRelV == 0
+//@   callsite Store: [C08:stamped-now-and-now-plus-lifetime] arg2 == gNow && arg3 == gExp
+//@   callsite AsyncStore: [C07:redis-tier-same-key-same-encoding] arg0 == c.redis && arg1 == gKey && arg4 == gVal && nRelK == 0 && nRelV == 0
+//@   callsite AsyncStore: [C08:redis-tier-same-time-stamps] arg2 == gNow && arg3 == gExp
+//@   callsite ReleaseBuf: [C20:only-its-own-scratch-buffers] arg0 == gKey || arg0 == gVal
+//@   ensures [C20:scratch-buffers-released-once] nRelK == (gKey != nil ? 1 : 0) && nRelV == (gVal != nil ? 1 : 0)
 //@ spec func uwOK(uw *upstreamWrapper) bool = uw != nil && uw.u != nil && uw.queryTotal != nil && uw.errTotal != nil && uw.thread != nil && uw.responseLatency != nil
 // upstreamWrapper.Exchange (metrics around one upstream): exactly one exchange, with this wrapper's upstream, the
 // caller's context and the caller's payload; what the upstream returned is what the caller gets.
